@@ -28,6 +28,10 @@ def strategy(tier):
         st.tuples(st.just("mkproc"), i),
         st.tuples(st.just("mkproc"), i),
         st.tuples(st.just("clock_step"), st.sampled_from([-3600, -1, 1, 2, 37, 3600, 86400, -86400])),
+        # a board without RTC: the clock jumps from 1970 to today (and the
+        # published boot time crosses many powers of two), or back
+        st.tuples(st.just("clock_step"), st.sampled_from([-1699999993, 1699999993, -10**9, 10**9, 2**31, 2**32,
+                                                          -2**31, 10**10])),
         st.tuples(st.just("clock_step"), st.integers(-10**6, 10**6)),
         st.tuples(st.just("boot_time")),
         st.tuples(st.just("boot_time")),
@@ -115,7 +119,7 @@ def run_case(case):
                 if o is not None and stepped:
                     sig.append("object-after-step")
             elif kind == "clock_step":
-                k.btime += op[1]
+                k.btime = max(0, k.btime + op[1])
                 stepped = True
                 sig.append("step")
             elif kind == "boot_time":
